@@ -32,6 +32,11 @@ theorem C19_gen_libSwitches :
     reused while bytes of an earlier exchange can still arrive on it. -/
 theorem C19_gen_responseNotClosedUnread : Generated.singleRequestClosesResponseUnread = some false := by decide
 
+/-- The bytes of an error body are dropped where they are read: no constructor of `Transport.Body` is ever inspected by
+    `exchange`/`deliver` (`C19_error_body_irrelevant`) because the code hands those bytes to nothing — no decoding, no
+    parser, no exception argument. -/
+theorem C19_gen_errorBodyUnused : Generated.singleRequestErrorBodyUnused = some true := by decide
+
 theorem C19_gen_emptyBodyNone : Generated.runRequestEmptyBodyNone = some true := by decide
 
 end JRV.Props
